@@ -49,6 +49,7 @@ func c04Scenarios(tier string) []schedh.Scenario {
 	add("diamond", map[string]string{"p/BUILD": rule("a", ":b", ":c") + rule("b", ":d") + rule("c", ":d") + rule("d")}, "//p:a")
 	add("fanin", map[string]string{"p/BUILD": rule("a", ":b", ":c") + rule("b") + rule("c")}, "//p:a")
 	add("twopkg", map[string]string{"p/BUILD": rule("a", "//q:b") + rule("c"), "q/BUILD": rule("b", "//p:c")}, "//p:a")
+	add("twopkg2", map[string]string{"p/BUILD": rule("a", "//q:b") + rule("d", "//q:c"), "q/BUILD": rule("b") + rule("c")}, "//p:a", "//p:d")
 	add("twice", map[string]string{"p/BUILD": rule("a", ":b") + rule("b")}, "//p:a", "//p:b", "//p:a")
 	add("provide", map[string]string{"p/BUILD": "build_rule(name=\"a\", cmd=\"FAKE\", outs=[\"a.out\"], deps=[\":b\"], requires=[\"x\"])\n" +
 		"build_rule(name=\"b\", cmd=\"FAKE\", outs=[\"b.out\"], provides={\"x\": \":c\"})\n" + rule("c")}, "//p:a")
@@ -86,6 +87,8 @@ func c05Scenarios(tier string) []schedh.Scenario {
 	add(true, "cycle2", map[string]string{"p/BUILD": rule("a", ":b") + rule("b", ":a")}, nil, f, "//p:a")
 	add(false, "cycle3", map[string]string{"p/BUILD": rule("a", ":b") + rule("b", ":c") + rule("c", ":a")}, nil, f, "//p:a")
 	add(false, "cycle-xpkg", map[string]string{"p/BUILD": rule("a", "//q:b"), "q/BUILD": rule("b", "//p:a")}, nil, f, "//p:a")
+	// no failure injected: the build must succeed (exit status faithful in both directions)
+	out = append(out, schedh.Scenario{Name: "nofail-twopkg2-n2", Files: map[string]string{"p/BUILD": rule("a", "//q:b") + rule("d", "//q:c"), "q/BUILD": rule("b") + rule("c")}, Targets: []string{"//p:a", "//p:d"}, Threads: 2})
 	add(true, "two-roots-one-fails", map[string]string{"p/BUILD": rule("a") + rule("b")}, []string{"//p:b"}, t, "//p:a", "//p:b")
 	return out
 }
@@ -105,11 +108,21 @@ type violation struct {
 // exploration: it is set by oracle and collected by the caller.
 var softClass, softDetail string
 
+// continuing lists classes (listed known findings on the pinned tree) after which exploration simply continues, so that a
+// known defect never hides a different one behind it. They are still reported on every run.
+var continuing = map[string]bool{
+	"results-dropped-at-shutdown": true,
+	"hang:cycle-check-ran-before-the-cycle-was-complete-and-is-never-rearmed": true,
+}
+
 func oracle(prop string, sc schedh.Scenario, obs *schedh.Obs, res *vsched.Result) (string, string) {
 	softClass, softDetail = "", ""
 	switch res.Status {
 	case "ok":
 	case "deadlock":
+		if res.EarlyFires > 0 && strings.HasPrefix(sc.Name, "cycle") {
+			return "hang:cycle-check-ran-before-the-cycle-was-complete-and-is-never-rearmed", "the 5s cycle-check timer fired while the graph was still being built, found nothing, and no later build result re-arms it, so the cyclic build waits forever; blocked: " + strings.Join(res.Blocked, ", ") + "\n" + obs.String()
+		}
 		return "deadlock", "no enabled thread; blocked: " + strings.Join(res.Blocked, ", ") + "\n" + obs.String()
 	case "fatal":
 		// log.Fatal: the process exits non-zero. For C05 that is an allowed way to terminate when a failure was injected.
@@ -161,7 +174,8 @@ func oracle(prop string, sc schedh.Scenario, obs *schedh.Obs, res *vsched.Result
 		}
 	}
 	for l, n := range terminal {
-		if n > 1 {
+		if n > 1 && prop == "C04" { // exactly-once reporting is C04's statement; C05 is about termination and the exit status
+
 			return "reported-twice", fmt.Sprintf("%s has %d terminal results\n%s", l, n, obs.String())
 		}
 	}
@@ -170,7 +184,7 @@ func oracle(prop string, sc schedh.Scenario, obs *schedh.Obs, res *vsched.Result
 			softClass, softDetail = "results-dropped-at-shutdown", fmt.Sprintf("%s completed but its terminal result never reached the results stream: %d logged results were never delivered before Run closed the stream\n%s", l, obs.Dropped, obs.String())
 			continue
 		}
-		if terminal[l] != 1 {
+		if terminal[l] != 1 && prop == "C04" {
 			return "not-reported", fmt.Sprintf("%s completed but has %d terminal results\n%s", l, terminal[l], obs.String())
 		}
 	}
@@ -207,6 +221,9 @@ func oracle(prop string, sc schedh.Scenario, obs *schedh.Obs, res *vsched.Result
 			}
 		}
 	} else {
+		if !sc.MustFail && obs.Failed {
+			return "spurious-failure", "the build is reported failed although every target can be built\n" + obs.String()
+		}
 		if sc.MustFail && !obs.Failed {
 			return "failure-not-reported", "a requested target could not be built but the build reports success\n" + obs.String()
 		}
@@ -247,6 +264,13 @@ func exploreRoots(prop string, sc schedh.Scenario, bound int, delay, timers, new
 		if softClass != "" && !softSeen[softClass] {
 			softSeen[softClass] = true
 			out.Violations = append(out.Violations, violation{Class: softClass, Scenario: sc, Choices: r.Choices, Delay: delay, Timers: timers, Newest: newest, Detail: softDetail})
+		}
+		if class != "" && continuing[class] {
+			if !softSeen[class] {
+				softSeen[class] = true
+				out.Violations = append(out.Violations, violation{Class: class, Scenario: sc, Choices: r.Choices, Delay: delay, Timers: timers, Newest: newest, Detail: detail})
+			}
+			return true
 		}
 		if class != "" {
 			first := obs.String()
@@ -406,8 +430,10 @@ func main() {
 			}
 			if c != "" {
 				total.Violations = append(total.Violations, violation{Class: c, Scenario: sc, Choices: root.Choices, Delay: true, Timers: timers, Newest: newest, Detail: d})
-				hardTotal++
-				break
+				if !continuing[c] {
+					hardTotal++
+					break
+				}
 			}
 			if bound == 0 {
 				stat.Bound = 0
@@ -470,8 +496,9 @@ func main() {
 				}(w, mine)
 			}
 			wg.Wait()
+			hardTotal = 0
 			for _, v := range total.Violations {
-				if v.Class != "results-dropped-at-shutdown" {
+				if !continuing[v.Class] {
 					hardTotal++
 				}
 			}
